@@ -12,18 +12,28 @@ RULE = ("distributed / class-balanced / weighted samplers (+ random sampler for 
         "the rank streams, interleaved (G_W[k*W+r] = stream_r[k]), must equal G with only a tail dropped or G's own head "
         "wrapped around, every rank must yield len(sampler) entries; G itself must be a permutation / runs of num_repeats; "
         "for sizes <= 4 every answer of the permutation draw is enumerated (TorchProxy) instead of seeds; "
-        "states = (sampler, n, W, global draw), transitions = indices compared")
+        "process-group environment histories (init(rank, W) / destroy / build-with-defaults, length <= 4, torch.distributed's answers "
+        "owned by the harness): a sampler built with default rank / world size equals the one built with the answers current at "
+        "that moment; states = (sampler, n, W, global draw), transitions = indices compared")
 
 
 class DS:
-    def __init__(self, classes):
+    def __init__(self, classes, container="list"):
         self.classes = list(classes)
+        self.container = container  # how the bulk accessor stores the labels (datasets keep them compactly)
 
     def __len__(self):
         return len(self.classes)
 
     def getall_class(self):
-        return list(self.classes)
+        if self.container == "list":
+            return list(self.classes)
+        import numpy as np
+        import torch
+        kind, dt = self.container.split(":")
+        if kind == "numpy":
+            return np.array(self.classes, dtype=getattr(np, dt))
+        return torch.tensor(self.classes, dtype=getattr(torch, dt))
 
     def getitem_class(self, i, ctx=None):
         return self.classes[i]
@@ -304,6 +314,89 @@ def random_sampler_task(_):
     return p
 
 
+class FakeDist:
+    """Owns what torch.distributed answers (the process-group environment of this process)."""
+
+    def __init__(self):
+        self.state = None  # None: no process group; (rank, world_size) once initialised
+
+    def install(self):
+        import torch.distributed as dist
+        self.saved = {k: getattr(dist, k) for k in ("is_available", "is_initialized", "get_rank", "get_world_size")}
+        dist.is_available = lambda: True
+        dist.is_initialized = lambda: self.state is not None
+        dist.get_rank = lambda *a, **k: self.state[0]
+        dist.get_world_size = lambda *a, **k: self.state[1]
+
+    def uninstall(self):
+        import torch.distributed as dist
+        for k, v in self.saved.items():
+            setattr(dist, k, v)
+
+
+def env_task(_):
+    """Process-group histories: events are 'init(rank, W)', 'destroy' and 'build a sampler with default rank / world size';
+    every sampler built with defaults must behave like the one built with the explicit (rank, world size) the environment
+    answers at that moment - whatever was asked or built earlier in the process."""
+    import torch
+    from kappadata.samplers.semi_sampler import SemiSampler
+    from kappadata.samplers.class_balanced_sampler import ClassBalancedSampler
+    from kappadata.samplers.weighted_sampler import WeightedSampler
+    p = Partial()
+    ds = DS([0, 1, 0, 1, 2, 2, 0, 1])
+    semi_ds = DS([0, -1, 1, -1, -1, 0, -1, 1])
+    builders = {
+        "class_balanced": lambda **kw: ClassBalancedSampler(ds, shuffle=True, seed=3, **kw),
+        "weighted": lambda **kw: WeightedSampler(ds, weights=torch.tensor([1.0, 2.0, 1.0, 3.0, 1.0, 1.0, 2.0, 1.0]), seed=3, **kw),
+        "semi": lambda **kw: SemiSampler(semi_ds, num_labeled=1, num_unlabeled=1, seed=3, **kw),
+    }
+    events = ["build", ("init", 0, 2), ("init", 1, 2), ("init", 2, 3), "destroy"]
+    fake = FakeDist()
+    fake.install()
+    try:
+        for name, build in builders.items():
+            for L in (1, 2, 3, 4):
+                for hist in itertools.product(events, repeat=L):
+                    if hist[-1] != "build":
+                        continue
+                    fake.state = None
+                    ok = True
+                    for k, ev in enumerate(hist):
+                        if ev == "destroy":
+                            fake.state = None
+                        elif ev != "build":
+                            fake.state = (ev[1], ev[2])
+                        else:
+                            rank, W = fake.state if fake.state is not None else (0, 1)
+                            p.evaluations += 1
+                            p.transitions += 1
+                            case = dict(env=True, sampler=name, history=[list(e) if isinstance(e, tuple) else e for e in hist[:k + 1]])
+                            try:
+                                s = build()
+                                got = (list(s), len(s))
+                                # reference: same process-group answers, explicit arguments
+                                r = build(rank=rank, world_size=W)
+                                exp = (list(r), len(r))
+                            except Exception as e:
+                                p.violation(f"C12:env:{name}:exception:{type(e).__name__}", case, f"{name} after {hist[:k + 1]}: {e!r}")
+                                ok = False
+                                break
+                            if (getattr(s, "rank", rank), getattr(s, "world_size", W)) != (rank, W) or got != exp:
+                                p.violation(f"C12:env:{name}:default_rank_or_world_size_not_from_the_current_process_group", case,
+                                            f"{name} built with defaults after {hist[:k + 1]}: rank/world_size "
+                                            f"{getattr(s, 'rank', None)}/{getattr(s, 'world_size', None)}, stream {got}; the process "
+                                            f"group says rank {rank} of {W}: {exp}")
+                                ok = False
+                                break
+                    if ok:
+                        p.state((name, tuple(map(str, hist))))
+                        p.traces += 1
+    finally:
+        fake.uninstall()
+    p.observe(("env_histories", len(events)))
+    return p
+
+
 def run(run):
     N = 6 if run.tier == "quick" else 8
     tasks = [(kind, n, run.tier, part, 6) for kind in ("distributed", "class_balanced", "weighted") for n in range(1, N + 1)
@@ -311,6 +404,7 @@ def run(run):
     tasks.sort(key=lambda t: -t[1])
     run.pmap(task, tasks)
     run.pmap(random_sampler_task, [0])
+    run.pmap(env_task, [0])
     run.exhaustive = run.counters.get("permutation_enumeration_capped", 0) == 0
     run.extra.update(bounds=dict(n=f"1..{N}", world_sizes="1..4 (distributed: also 7, 9)", epochs="0..3", seeds="0..2", num_repeats="1..3",
                                  permutation_answers="all for n<=4 (cap 300 answer sequences per configuration)"))
@@ -323,7 +417,9 @@ def run(run):
 
 def replay(case):
     p = Partial()
-    if case.get("random_sampler"):
+    if case.get("env"):
+        p = env_task(0)
+    elif case.get("random_sampler"):
         p = random_sampler_task(0)
     else:
         ds = DS(case["classes"])
